@@ -81,10 +81,15 @@ static void *qt_blocking_subsystem_proxy_thread(void *QUNUSED(arg))
 {   /*{{{*/
     while (proxy_exit == 0) {
         if (qt_process_blocking_call()) {
-            break;
+            /* timed out on an empty queue: io_worker_count was already
+             * decremented (under the queue lock) */
+            pthread_exit(NULL);
         }
         COMPILER_FENCE;
     }
+    /* stopping because the subsystem shuts down: this proxy is still counted,
+     * and qt_blocking_subsystem_internal_stopwork() waits for the count */
+    (void)qthread_incr(&io_worker_count, -1);
     qthread_debug(IO_DETAILS, "proxy_exit = %i, exiting\n", proxy_exit);
     pthread_exit(NULL);
     return 0;
